@@ -153,4 +153,18 @@ PROPS = {
         "shards": {"quick": 4, "thorough": 16},
         "no_panic": ["text "],
     },
+    "C10": {
+        "modules": ["Capnp.Props.C10"],
+        "gen": False,
+        "rule": "sequential API scripts of 2-15 operations (AddRef/Release/call/WeakRef upgrade on handles of a promised client and of its "
+                "target, Fulfill with a client or nil) run on real Clients with instrumented ClientHooks, Shutdown counters and call results "
+                "compared with the model after every operation (M); the interleaving of the proved-impossible window (Fulfill parked between its "
+                "two critical sections while the promised client's handle is released) replayed on the implementation through the verif "
+                "scheduling hook (S); stress: 2-16 goroutines x 20-400 random operations on shared capabilities, oracle: one Shutdown per hook, "
+                "no use after Shutdown, no panic (S). Non-trivial: all; distinct by hash.",
+        "trusted": COMMON_TRUSTED + ["the critical sections of capability.go are the model's atomic actions (sampled, not proved)", "sync.Mutex / channel semantics"],
+        "assumptions": ["WeakClient.AddRef writes wc.h without synchronisation: a data race outside the atomic-section model (DESIGN.md 6 C10)"],
+        "shards": {"quick": 2, "thorough": 16},
+        "no_panic": ["cap "],
+    },
 }
